@@ -40,7 +40,7 @@ class LinOp(scipy.sparse.linalg.LinearOperator):
 
 def load_code(enc=None, transforms=None):
     transforms = transforms or {}
-    snp = SymNP()
+    snp = SymNP(int_dtype_model=True)      # integer-typed argument vectors keep numpy's integer semantics (truncating stores)
     real_sc = _NS(sparse=_NS(linalg=_NS(LinearOperator=scipy.sparse.linalg.LinearOperator,
                                        aslinearoperator=lambda B: B if isinstance(B, scipy.sparse.linalg.LinearOperator) else LinOp(B.toarray() if hasattr(B, 'toarray') else B)),
                              issparse=lambda x: isinstance(x, SpMat)))
@@ -112,6 +112,11 @@ def kron_harness(on, kn, shapes, kinds):
             x = sx.symarray('z', (D.shape[1],))
             y = kn['apply_kronecker'](ops, x)
             c.check(sx.eq_arrays(np.asarray(y, dtype=object).ravel(), D.dot(x)), 'apply_kronecker = dense Kronecker product')
+            # an INTEGER-typed argument (e.g. an indicator vector): the result is still the exact product
+            from symx.symnp import IntArr
+            xi = sx.symarray('zi', (D.shape[1],), sort='int').view(IntArr)
+            yi = kn['apply_kronecker'](ops, xi)
+            c.check(sx.eq_arrays(np.asarray(yi, dtype=object).ravel(), D.dot(np.asarray(xi.view(np.ndarray), dtype=object))), 'apply_kronecker with an integer-typed argument vector = dense Kronecker product')
         c.witness('kron')
     return run
 
@@ -226,6 +231,12 @@ elif kind == 'kron':
     Ms = [rng.rand(*s) for s in w['shapes']]; D = Ms[0]
     for M in Ms[1:]: D = np.kron(D, M)
     test(O.KroneckerOperator(*[wrap(M, k) for M, k in zip(Ms, w['kinds'])]), D, 'KroneckerOperator')
+    if all(s[0] == s[1] for s in w['shapes']) or all(k == 'dense' for k in w['kinds']):
+        from pyiga import kronecker
+        ops_ = [wrap(M, k) for M, k in zip(Ms, w['kinds'])]
+        for nm, xv in (('float', rng.rand(D.shape[1])), ('integer', np.arange(1, D.shape[1] + 1)), ('integer 2 columns', np.arange(2 * D.shape[1]).reshape(D.shape[1], 2))):
+            y = np.asarray(kronecker.apply_kronecker(ops_, xv))
+            if not np.allclose(y.reshape(np.shape(D @ xv)), D @ xv): bad.append('apply_kronecker with a %s argument differs from the dense Kronecker product' % nm)
 elif kind == 'blockdiag':
     Ms = [rng.rand(*s) for s in w['shapes']]
     import scipy.linalg
